@@ -303,7 +303,34 @@ def check_notify_rows(P):
                         out.append((row, b, p, "holds", "exempt: " + may, False))
                         continue
                     ok = any(x.pos in b.pos_reach_set(p.pos) for x in nots)
-                    out.append((row, b, p, "holds" if ok else "violated", ("may-follow: " + may) if ok else f"no {row['id']} notifier reachable after the publish at {p.loc}", True))
+                    detail = ("may-follow: " + may) if ok else f"no {row['id']} notifier reachable after the publish at {p.loc}"
+                    if ok and "> 0" in may:
+                        # "notifies once after the loop when <count> > 0": the only branch that may skip the notifier is the zero outcome of a comparison of a
+                        # counter with the constant 0; any other condition on the notify (a fullness snapshot, a flag) re-opens the lost-wakeup window
+                        excused = set()
+                        for blk in range(len(b.blocks)):
+                            if b.is_cleanup(blk) or b.term(blk)["k"] != "switch":
+                                continue
+                            ss = b.switch_source(blk)
+                            if ss and ss.get("kind") == "cmp" and ss["op"] in ("Gt", "Ne", "Lt", "Eq"):
+                                ks = [(b.const_of_operand(ss["a"]) or {}).get("v"), (b.const_of_operand(ss["b"]) or {}).get("v")]
+                                if 0 in ks:
+                                    zero_label = "true" if ss["op"] == "Eq" else "false"
+                                    if ss.get("neg"):
+                                        zero_label = "false" if zero_label == "true" else "true"
+                                    excused |= set(b.edges_by_label(blk).get(zero_label, []))
+                        starts = [p.pos]
+                        if row["label"]:
+                            es = cachelib.result_switch_edges(b, p, row["label"])
+                            if es:
+                                starts = [(t, 0) for _, t in es]
+                        thr = frozenset(x.pos for x in nots)
+                        exits = set(b.exits())
+                        if any((st not in thr) and (b.pos_reach_set(st, removed=thr, removed_edges=frozenset(excused), strict=False) & exits) for st in starts):
+                            ok = False
+                            detail = (f"after the successful {row['id']} at {p.loc} a path reaches the exit without the notifier although items were transferred: the notify is "
+                                      "conditional on something other than `count > 0` (" + row["why"] + ")")
+                    out.append((row, b, p, "holds" if ok else "violated", detail, True))
                     continue
                 starts = [p.pos]
                 strict = True
